@@ -535,4 +535,59 @@ theorem seqRun_expandRest (bs100k : Nat) (rest : List UInt8) (n W totalIn totalO
   simp only [List.nil_append] at h
   exact h
 
+/-! ### witnesses (kernel-evaluated; used by the non-vacuity examples of Props/C09/File.lean) -/
+
+/-- the 37 bytes `bzip2 -9` makes of the one-byte file "a" -/
+def fileA : List UInt8 :=
+  [0x42, 0x5a, 0x68, 0x39, 0x31, 0x41, 0x59, 0x26, 0x53, 0x59, 0x19, 0x93, 0x9b, 0x6b, 0x00, 0x00,
+   0x00, 0x01, 0x00, 0x20, 0x00, 0x20, 0x00, 0x21, 0x18, 0x46, 0x82, 0xee, 0x48, 0xa7, 0x0a, 0x12,
+   0x03, 0x32, 0x73, 0x6d, 0x60]
+
+/-- two workers, the whole input in one input block -/
+def cfgA : Cfg := cfgOf 9 (fileA.drop 4) 2 1000 2 2 false []
+
+/-- a complete run of `cfgA`: the block's data starts at bit 80 -/
+def traceA : List Label :=
+  [.rTake, .rBlock, .rEof, .parseStart, .parseEnd,
+   .retrStart { curr := 80, base := 80, ub := none, corrupt := false },
+   .scanStart 0, .scanEnd 80 0,
+   .retrEnd { curr := 80, base := 80, ub := none, corrupt := false } (some 0),
+   .parseStart, .parseEnd,
+   .retrPost { base := 80, idx := 0, left := 1, ok := true, corrupt := false },
+   .emitStart { base := 80, idx := 0, left := 1, ok := true, corrupt := false },
+   .emitEnd { base := 80, idx := 0, left := 1, ok := true, corrupt := false },
+   .reorder { base := 80, idx := 0, st := .ok, corrupt := false },
+   .wDone]
+
+/-- one worker, input blocks of 64 bits (five of them), three slots, `ultra`, a spurious
+    scanner candidate -/
+def cfgB : Cfg := cfgOf 9 (fileA.drop 4) 1 64 3 3 true [100]
+
+/-- a complete run of `cfgB`: the parser and the retriever cross input-block boundaries
+    (`parse()` / `retrieve()` return MORE) -/
+def traceB : List Label :=
+  [.rTake, .rBlock, .rTake, .rBlock, .rTake, .rBlock, .parseStart, .parseEnd, .rTake, .rBlock,
+   .parseStart, .parseEnd,
+   .retrStart { curr := 80, base := 80, ub := none, corrupt := false },
+   .retrEnd { curr := 80, base := 80, ub := none, corrupt := false } (some 1),
+   .rTake, .rBlock, .rEof,
+   .retrStart { curr := 128, base := 80, ub := none, corrupt := false },
+   .retrEnd { curr := 128, base := 80, ub := none, corrupt := false } (some 2),
+   .retrPost { base := 80, idx := 0, left := 1, ok := true, corrupt := false },
+   .emitStart { base := 80, idx := 0, left := 1, ok := true, corrupt := false },
+   .emitEnd { base := 80, idx := 0, left := 1, ok := true, corrupt := false },
+   .reorder { base := 80, idx := 0, st := .ok, corrupt := false },
+   .wDone, .parseStart, .parseEnd, .parseStart, .parseEnd, .parseStart, .parseEnd]
+
+/-- `traceA` is a run of `cfgA` that terminates having handed `(80, 0)` to the sink (the
+    parser, retriever, decoder, emitter and CRC of the model evaluated on `fileA`) -/
+theorem runA_terminates : (run cfgA (init cfgA) traceA).any
+    (fun s => terminated cfgA s && decide (s.written = [(80, 0)])) = true := by decide +kernel
+
+theorem runB_terminates : (run cfgB (init cfgB) traceB).any
+    (fun s => terminated cfgB s && decide (s.written = [(80, 0)])) = true := by decide +kernel
+
+/-- the record `(80, 0)` of `fileA` is the byte "a" -/
+theorem render_fileA : render 9 (fileA.drop 4) (80, 0) = [97] := by decide +kernel
+
 end LbzVerif.Lemmas.ExpandSched
